@@ -84,7 +84,13 @@ CHECKS = {
          "pending flags, skip counter, trailing-whitespace trimming): C13_content -- for EVERY document, both forms and ANY two "
          "widths the renderings are equal once whitespace is removed (simulation with invariant 'same non-blank content, same "
          "skip counter'); the short form shows exactly the chunks before the first paragraph break of each text and skips the "
-         "rest. The width bound is partial: decided by the oracle. Tie: the Doc of help/error outcomes of generated parsers "
+         "rest. The width clause, for every width and every document with texts shorter than 10^6 characters: "
+         "C13_column_dominates_line -- at every prefix of the rendering the column counter the wrapping decision uses is at "
+         "least the length of the line being written; C13_width_word_partial -- from every state the renderer can reach "
+         "(C13_render_states_reachable, C13_splitter_chunks), placing a word or a separating space leaves a line of at most "
+         "width+2 characters unless the word starts at the margin (it is the single word after the indentation / definition "
+         "term) or the line holds a preformatted code line. Not derived: the statement about the lines of the final text "
+         "(decided by the oracle on the library's text). Tie: the Doc of help/error outcomes of generated parsers "
          "(token list read from its Debug form) is rendered by the model and by the library at 22 (quick) / 300 (thorough) "
          "widths plus unwrapped and compared byte for byte; the oracle checks content equality and line lengths on the "
          "library's text alone.",
